@@ -158,6 +158,13 @@ func (g *genState) newPod() *PodSpec {
 	if r.Chance(0.08) {
 		ann[form("cold-start."+rns)] = "duration: 30s"
 	}
+	if g.policy == "topology-aware" && g.hasPMEM() && r.Chance(0.2) {
+		// a pod whose containers really go through a cold-start period
+		ann["memory-type."+rns+"/pod"] = verifrt.Pick(r, []string{"pmem,dram", "dram,pmem", "dram,pmem,hbm"})
+		ann["cold-start."+rns+"/pod"] = "duration: 30s"
+		delete(ann, "memory-type."+rns)
+		delete(ann, "cold-start."+rns)
+	}
 	if r.Chance(0.1) {
 		ann[form("prefer-cpu-priority."+rns)] = verifrt.Pick(r, []string{"high", "normal", "low", "none"})
 	}
@@ -175,6 +182,15 @@ func (g *genState) newPod() *PodSpec {
 		p.Annotations = ann
 	}
 	return p
+}
+
+func (g *genState) hasPMEM() bool {
+	for _, n := range g.m.Nodes {
+		if n.Type == "pmem" {
+			return true
+		}
+	}
+	return false
 }
 
 func (g *genState) cpuChoices(qos string) int {
@@ -313,7 +329,18 @@ func genPlan(prop, tier string, seed uint64, faults bool) *Plan {
 		created := g.ctrsIn("created")
 		stopped := g.ctrsIn("stopped")
 		// weights: run-pod create start update stop remove stop-pod remove-pod reconfigure restart sync
-		w := []int{10, 30, 14, 8, 14, 10, 2, 2, 3, 2, 1}
+		w := []int{10, 30, 14, 8, 14, 10, 2, 2, 3, 2, 1, 0}
+		running := g.ctrsIn("running")
+		if pol == "topology-aware" && len(running) > 0 && (prop == "C04" || prop == "C12" || prop == "C05" || prop == "C03" || prop == "C01" || prop == "C09") {
+			w[11] = 3
+			for _, c := range running {
+				for _, pd := range g.pods {
+					if pd.ID == c.Pod && pd.Annotations["cold-start."+rns+"/pod"] != "" {
+						w[11] = 12
+					}
+				}
+			}
+		}
 		switch prop {
 		case "C13":
 			w[8] = 10
@@ -463,6 +490,24 @@ func genPlan(prop, tier string, seed uint64, faults bool) *Plan {
 			}
 		case 10:
 			op.Kind = "sync"
+		case 11:
+			cands := running
+			var cold []*CtrSpec
+			for _, c := range running {
+				for _, pd := range g.pods {
+					if pd.ID == c.Pod {
+						for k := range pd.Annotations {
+							if strings.HasPrefix(k, "cold-start.") {
+								cold = append(cold, c)
+							}
+						}
+					}
+				}
+			}
+			if len(cold) > 0 {
+				cands = cold
+			}
+			op.Kind, op.ID = "coldstart-done", verifrt.Pick(r, cands).ID
 		}
 		if op.Kind == "stop-pod" {
 			// generator view: a pod is only stopped once its containers are
